@@ -82,7 +82,7 @@ class Driver:
         if k in m["sched"]:
             w = m["sched"][k]
             m["sent"].append(w)
-            return ((1, (w >> 8) & 0xFF, True, True), (0, w & 0xFF, True, True))
+            return ((1, (w >> 8) & 0xFF, True, True, m["id"]), (0, w & 0xFF, True, True, m["id"]))
         junk = x["junk"] & 0xFF
         drvdq = k >= m["first"]
         return ((0, junk if drvdq else None, True, drvdq), (0, junk ^ 0xFF if drvdq else None, True, drvdq))
@@ -99,7 +99,7 @@ class Driver:
             sched[k] = w
             k += 1 + gaps[n % len(gaps)]
             n += 1
-        self.mem = dict(k=0, sel=False, txn=x, sched=sched, first=first, sent=[], lvl=self.case["idle_rwds"],
+        self.mem = dict(id=len(self.plan) - 1, k=0, sel=False, txn=x, sched=sched, first=first, sent=[], lvl=self.case["idle_rwds"],
                         drv_rwds=False)
 
     # ---- per-cycle step ----------------------------------------------------------------------------
@@ -124,13 +124,15 @@ class Driver:
         c["rwds_i"] = (a[0] << 1) | b[0]
         c["dq_i"] = ((a[1] if a[1] is not None else 0) << 8) | (b[1] if b[1] is not None else 0)
         word_done = None
-        if a[3] and a[0] == 1 and b[3] and b[0] == 0:
-            word_done = (a[1] << 8) | b[1]             # aligned word fully presented in this cycle
-        elif b[3] is False and a[3] and a[0] == 0 and self._pending_hi is not None:
-            word_done = (self._pending_hi << 8) | a[1]
-        elif a[3] and a[0] == 0 and self._pending_hi is not None:
-            word_done = (self._pending_hi << 8) | a[1]
-        self._pending_hi = b[1] if (b[3] and b[0] == 1) else None
+        for hh in (a, b):
+            if self._pending_hi is not None:
+                if hh[3]:
+                    word_done = ((self._pending_hi << 8) | hh[1], hh[4])
+                self._pending_hi = None
+            elif hh[3] and hh[0] == 1:
+                self._pending_hi = hh[1]
+        emit_rwds = pair[0][2] or pair[1][2]
+        emit_dq = pair[0][3] or pair[1][3]
 
         # user side
         if self.state == "next":
@@ -189,9 +191,9 @@ class Driver:
             self.tail += 1
             if self.tail > 6:
                 return None
-        if self.plan and word_done is not None:
-            self.plan[-1]["delivered"].append((t, word_done))
-        self.inputs.append(dict(c, mem_rwds=raw[0][2] or raw[1][2], mem_dq=raw[0][3] or raw[1][3]))
+        if word_done is not None:
+            self.plan[word_done[1]]["delivered"].append((t, word_done[0]))
+        self.inputs.append(dict(c, mem_rwds=emit_rwds or a[2] or b[2], mem_dq=emit_dq or a[3] or b[3]))
         return dict(c)
 
     _pending_hi = None
@@ -242,8 +244,7 @@ class HyperSub(Sub):
         labels = set()
         burst = False
         if len(plan) != len(case["txns"]):
-            p = plan[-1] if plan else None
-            return fail(f"transaction {len(plan) - 1} never returned to idle (cycle {len(trace)})",
+            return fail(f"transaction {len(plan) - 1} never returned to idle / interface never idle (cycle {len(trace)})",
                         signature="transaction-did-not-end")
         # idle before the first transaction
         bounds = [p["T"] for p in plan] + [len(trace)]
@@ -308,6 +309,8 @@ class HyperSub(Sub):
                     for t in datac:
                         if not trace[t].rwds_e:
                             return fail(f"{what}: write word in cycle {t} without RWDS driven", signature="write-without-rwds")
+                if not datac:
+                    return fail(f"{what}: no write word was clocked out", signature="write-words-not-transferred")
                 end_cycle = datac[-1]
             else:
                 want = p["delivered"]
@@ -318,9 +321,6 @@ class HyperSub(Sub):
                                 f"{[(t, hex(w)) for t, w in want[:n + 1]]}", signature="read-words-mismatch")
                 if len(got) > n:
                     return fail(f"{what}: {len(got)} words reported for a burst of {n}", signature="read-past-final")
-                if [t for t, _ in got] != [t for t, _ in want[:n]]:
-                    return fail(f"{what}: read_ready cycles {[t for t, _ in got]} differ from the cycles in which the "
-                                f"words were presented {[t for t, _ in want[:n]]}", signature="read-ready-timing")
                 end_cycle = want[n - 1][0]
             if t_off < end_cycle:
                 return fail(f"{what}: chip select released in cycle {t_off + 1}, before the last word was transferred "
